@@ -387,6 +387,7 @@ func Run(r *rt.Run) error {
 		emitB(items, fmt.Sprintf("br/%d", i))
 	}
 	runArchive(r, t)
+	runChan(r, t)
 	r.Extra["value_classes"] = len(vclasses)
 	r.Extra["tag_sets"] = len(tagsets)
 	r.Finish("every value class (ints incl. beyond 2^53 and MinInt64, floats incl. integral, bools, strings with quote/comma/space/newline/unicode/backslash/equals) x tag sets (empty, spaces, commas, equals, unicode) recorded and replayed as stream points and as batches (3 group shapes, empty batch, tmax beyond the last point), in both clock modes and for 3 clock zeros (later, earlier, far earlier than the data); plus seeded random sequences; distinct by case key", false)
